@@ -205,9 +205,13 @@ class CompositeFrontend(ConstrainedFrontend):
         log.debug("... split solver %r into %d parts", s, len(ss))
         log.debug("... variable counts: %s", [len(cs.variables) for cs in ss])
 
+        # a child that other children have displaced for some of its variables must not displace them in turn
+        registered = {v for v in s.variables if self._solvers.get(v) is s}
         for ns in ss:
             self._owned_solvers.add(ns)
-            self._store_child(ns)
+            for v in ns.variables & registered:
+                self._solvers[v] = ns
+            self._unchecked_solvers.add(ns)
 
         return ss
 
